@@ -202,6 +202,14 @@ func runC09One(cs *vrt.Case) {
 		w := []int{10, 12, 24, 11, 13, 20, 14, 28, 15, 33, 17, 34}[k%12]
 		op := []string{"a / b", "a % b"}[(k/12+k)%2]
 		ty := []string{"uint", "int"}[(k/2)%2]
+		if k%4 == 3 {
+			// ... and every fourth one an exhaustively evaluated unsigned
+			// division of 5-8 bits (the same programs as in the operator
+			// templates below, whose failing inputs on the unchanged tree are
+			// pinned): another failing input is a new witness
+			w, ty = []int{8, 7, 6, 5}[(k/4)%4], "uint"
+			op = []string{"a % b", "a / b"}[(k/16)%2]
+		}
 		src = fmt.Sprintf("package main\nfunc main(a, b %s%d) %s%d {\n\tif b == 0 {\n\t\treturn a\n\t}\n\treturn %s\n}\n", ty, w, ty, w, op)
 		what = "template"
 		cs.Count("template_programs", 1)
